@@ -36,6 +36,7 @@ def wfB (c : Chart) : Bool :=
         (match sd.memory with | some m => c.parentFor m == some p && m != sd.name | none => false)
      | none => false)) &&
   c.transitions.all (fun t => c.hasState t.source &&
+    (match c.kindOf t.source with | some k => k.ownsTransitions | none => true) &&
     (match t.target with
      | some tg => c.hasState tg &&
         (match c.lca t.source tg with
@@ -90,7 +91,7 @@ theorem wfB_sound (c : Chart) (h : wfB c = true) : WFChart c := by
     rcases h5 with h5 | h5
     · exact absurd ho h5
     · rw [hk] at h5; exact h5
-  refine ⟨treeOK_of_check c _ htree, hnames, ?_, ?_, ?_, ?_, ?_, ?_, ?_, ?_, ?_, ?_, ?_⟩
+  refine ⟨treeOK_of_check c _ htree, hnames, ?_, ?_, ?_, ?_, ?_, ?_, ?_, ?_, ?_, ?_, ?_, ?_⟩
   · cases hr : c.root with
     | none => rw [hr] at hroot; exact absurd hroot (by simp)
     | some r =>
@@ -154,12 +155,16 @@ theorem wfB_sound (c : Chart) (h : wfB c = true) : WFChart c := by
         exact ⟨p, m, rfl, this.1, rfl, this.2.1, this.2.2⟩
   · intro t ht
     have := htr t ht
-    refine ⟨this.1, ?_⟩
+    refine ⟨this.1.1, ?_⟩
     intro tg htg
     have h2 := this.2
     rw [htg] at h2
     simp only [Bool.and_eq_true] at h2
     exact h2.1
+  · intro t ht k hk
+    have := (htr t ht).1.2
+    rw [hk] at this
+    exact this
   · intro t ht tg l htg hl ho
     have := htr t ht
     have h2 := this.2
